@@ -8,6 +8,7 @@ import (
 
 	"github.com/weedbox/pokertable"
 
+	"verif/harness/choose"
 	"verif/harness/ev"
 	"verif/harness/run"
 	"verif/harness/sim"
@@ -184,9 +185,6 @@ func checkLabels(t *pokertable.Table) (string, string, map[string]bool) {
 	return "", "", labels
 }
 
-// c06Tune lets the pinned search steer the generator towards the recorded finding.
-var c06Tune func(o *HistOpts)
-
 func c06Body(c *run.Ctx) {
 	nontrivial := false
 	var hooks sim.Hooks
@@ -296,26 +294,131 @@ func c06Body(c *run.Ctx) {
 		}
 		s.Label("next_bb_checked")
 	}
-	if c06Tune != nil {
-		c06Tune(&o)
-	}
 	s := RunHistory(c, o, hooks, nil)
 	c.St.Case(s.Labels(), nontrivial, traceOf(s), sampleOf(s))
 }
 
 var c06pStats = ev.New("C06", "c06p")
 
-// TestC06Pinned keeps the recorded finding (labels vs. degenerate button seats) demonstrated.
+// TestC06Pinned keeps the recorded finding (labels vs. degenerate button seats)
+// demonstrated with a directed history: 5 seats, A@0 B@1 C@2; in a hand with D=1
+// SB=2 BB=0 both short stacks B and C go all-in and lose to A while two newcomers
+// sit in at seats 3 and 4; the next hand has D=2 SB=0 BB=3 (the big blind jumped
+// past the previous small-blind seat). The initial button is random: retried.
 func TestC06Pinned(t *testing.T) {
-	c06Tune = func(o *HistOpts) {
-		o.Gen.MinSeats, o.Gen.MaxSeats, o.Gen.MaxPlayers = 4, 6, 4
-		o.Gen.ShortStacks, o.Gen.SitOutPct = 10, 0
-		o.MinHands, o.MaxHands = 3, 6
-		o.BetweenPct, o.BetweenOps = 95, 4
-		o.Mem = sim.MemOpts{NewPlayer: 5, Leave: 6, KeepSitting: 0, MaxNewID: 8}
+	defer c06pStats.Write()
+	const sig = "C06.labels-vs-buttons.sb-not-between-dealer-and-bb"
+	if run.IsKnown("C06", sig) == nil {
+		return
 	}
-	defer func() { c06Tune = nil }()
-	run.Pinned(t, "C06", "c06p", c06pStats, "C06.labels-vs-buttons.sb-not-between-dealer-and-bb", 3000, c06Body)
+	for attempt := 0; attempt < 60; attempt++ {
+		c := &run.Ctx{Prop: "C06", Check: "c06p", TB: t, St: c06pStats}
+		c.Ch = choose.NewRecorder(choose.NewScriptChooser(nil))
+		demonstrated := false
+		func() {
+			defer func() {
+				if r := recover(); r != nil {
+					if fmt.Sprint(r) != "{}" {
+						panic(r)
+					}
+				}
+			}()
+			cfg := sim.Config{Seats: 5, Rule: pokertable.CompetitionRule_Default, Mode: pokertable.CompetitionMode_CT, MinPlayers: 2,
+				Blind:   pokertable.TableBlindState{Level: 1, SB: 2, BB: 4},
+				Players: []sim.PlayerSpec{{ID: "A", Seat: 0, Chips: 1000, Join: true}, {ID: "B", Seat: 1, Chips: 30, Join: true}, {ID: "C", Seat: 2, Chips: 30, Join: true}}}
+			var hooks sim.Hooks
+			arrived := false
+			hooks.Deck = func(s *sim.Sim, n int, short bool) []string {
+				m := sim.GameIDs(s.TE.GetTable()) // (runs inside CreateGame: the driver has not recorded the list yet)
+				if len(s.Hands) != 1 || n != 3 || len(m) != 3 {
+					return nil
+				}
+				// hole cards in game-index order; A gets the aces
+				holes := map[string][]string{"A": {"SA", "HA"}, "B": {"S2", "H3"}, "C": {"D4", "C6"}}
+				deck := []string{}
+				used := map[string]bool{}
+				for _, id := range m {
+					deck = append(deck, holes[id]...)
+				}
+				deck = append(deck, "C2", "DK", "CQ", "H9", "C3", "S8", "C4", "D7")
+				for _, c := range deck {
+					used[c] = true
+				}
+				for _, su := range []string{"S", "H", "D", "C"} {
+					for _, pt := range []string{"2", "3", "4", "5", "6", "7", "8", "9", "T", "J", "Q", "K", "A"} {
+						if !used[su+pt] {
+							deck = append(deck, su+pt)
+						}
+					}
+				}
+				return deck
+			}
+			hooks.Temper = func(s *sim.Sim, h *sim.Hand) int { return sim.TemperShove }
+			hooks.AtDecision = func(s *sim.Sim, d *sim.Decision) {
+				if d.Kind == "turn" && len(s.Hands) == 1 {
+					// scripted line: the short stacks shove, A calls (the harness plays the turn itself)
+					p := d.GS.GetPlayer(d.Cur)
+					want := []string{"pass", "allin"}
+					if d.Asked[0] == "A" {
+						want = []string{"pass", "call", "check", "allin"}
+					}
+					for _, k := range want {
+						if inList(p.AllowedActions, k) {
+							if err := s.Do(d.Asked[0], k, 0); err == nil {
+								s.SkipAct = true
+							}
+							break
+						}
+					}
+				}
+				if !arrived && len(s.Hands) == 1 {
+					arrived = true
+					s.Reserve("N1", 3, 500, "valid")
+					s.Join("N1", "valid")
+					s.Reserve("N2", 4, 500, "valid")
+					s.Join("N2", "valid")
+				}
+			}
+			hooks.Opened = func(s *sim.Sim, h *sim.Hand) {
+				if h.N == 1 {
+					st := h.Opened.State
+					if !(st.CurrentDealerSeat == 1 && st.CurrentSBSeat == 2 && st.CurrentBBSeat == 0) {
+						s.Stall = "other initial button"
+					}
+					return
+				}
+				sigGot, msg, _ := checkLabels(h.Opened)
+				st := h.Opened.State
+				if sigGot != "" && !strictlyBetween(st.CurrentDealerSeat, st.CurrentBBSeat, st.CurrentSBSeat, len(st.SeatMap)) && st.CurrentDealerSeat != st.CurrentSBSeat {
+					demonstrated = true
+					c.Failf(sig, "pinned history, hand %d: %s", h.N, msg)
+				}
+			}
+			s := sim.New(c.Ch, cfg, hooks)
+			defer s.Finish()
+			if s.CreateErr != nil || !s.StartFirst(nil) {
+				return
+			}
+			h1 := s.PlayHand(s.PlanSignals(0))
+			if s.Stall != "" || s.GateArmed == nil {
+				c06pStats.Label("pinned_attempt_ended: "+s.Stall+" "+h1.Outcome, 1)
+				return
+			}
+			s.PlayHand(s.PlanSignals(0))
+			c06pStats.Label("pinned_attempt_second_hand_played", 1)
+		}()
+		_ = demonstrated
+		for _, k := range c06pStats.Known {
+			if strings.HasSuffix(k, "["+sig+"]") {
+				c06pStats.Add("pinned_attempts_until_demonstrated", int64(attempt+1))
+				c06pStats.Case([]string{"pinned"}, true, "pinned-c06", func() interface{} {
+					return "directed history: A@0 B@1 C@2, D=1 SB=2 BB=0, B and C bust, N1@3 N2@4 arrive -> D=2 SB=0 BB=3"
+				})
+				return
+			}
+		}
+	}
+	c06pStats.Add("pinned_not_demonstrated", 1)
 }
 
 func TestC06(t *testing.T) {
